@@ -22,6 +22,8 @@
                        (fixed-length rows: equal gaps; 2-day ticks: 1 or 2 days;
                         months: 28..31 days; quarters: 84..93; k years: 365k..366k)
      tt_count        : m <= span_ms -> m / 2.4 - 1 <= length l <= 2.4 m + 1
+     gap_implies_alignment : an observed gap >= 1 s / 1 min / 1 h / 1 day / 28 days /
+                       365 days forces every tick onto that calendar boundary
    Nothing of the property's counting clauses is left unproved on the model.
    (The bounds hold for every m >= 1 and every span; the property only claims
    m in 2..50 and spans up to 250 years.) *)
@@ -113,6 +115,38 @@ Theorem C16_tt_count : forall d0 d1 m l,
   let n := Z.of_nat (length l) in 10 * m <= 24 * (n + 1) /\ 10 * (n - 1) <= 24 * m.
 Proof. exact tt_count. Qed.
 Print Assumptions C16_tt_count.
+
+(* gap_implies_alignment: the alignment clause read off an OBSERVED gap.  If two
+   consecutive ticks are at least 1 s / 1 min / 1 h / 1 day / 28 days / 365 days
+   apart, then EVERY tick is a whole second / minute / hour / a midnight / the
+   first of a month at midnight / 1 January at midnight (is_boundary of that unit;
+   C16_boundary_fields reads it on the calendar fields).  Proof: the gap is at
+   most the density gmax of the row the method table chose (TickRows.v), which
+   excludes every row finer than the claimed alignment. *)
+Theorem C16_gap_implies_alignment : forall d0 d1 m l i x y,
+  valid d0 -> valid d1 -> ms_resolution d0 -> ms_resolution d1 ->
+  ts_ticks d0 d1 m = Ok l ->
+  nth_error l i = Some x -> nth_error l (S i) = Some y ->
+  let G := to_us y - to_us x in
+  (1000000 <= G -> Forall (fun t => is_boundary USecond (to_us t)) l) /\
+  (60000000 <= G -> Forall (fun t => is_boundary UMinute (to_us t)) l) /\
+  (3600000000 <= G -> Forall (fun t => is_boundary UHour (to_us t)) l) /\
+  (86400000000 <= G -> Forall (fun t => is_boundary UDay (to_us t)) l) /\
+  (28 * 86400000000 <= G -> Forall (fun t => is_boundary UMonth (to_us t)) l) /\
+  (365 * 86400000000 <= G -> Forall (fun t => is_boundary UYear (to_us t)) l).
+Proof. exact gap_implies_alignment. Qed.
+Print Assumptions C16_gap_implies_alignment.
+
+(* the bounds behind it, as a function of the method (no existential): all ticks
+   lie in the method's tick set and all gaps within the row's [gmin, gmax] *)
+Theorem C16_ticks_row : forall d0 d1 m l meth,
+  valid d0 -> valid d1 -> ms_resolution d0 -> ms_resolution d1 ->
+  ts_ticks d0 d1 m = Ok l ->
+  tick_method_of (to_ms (dom_lo d0 d1)) (to_ms (dom_hi d0 d1)) m = Ok meth ->
+  Forall (fun t => meth_ticks meth (to_us t)) l /\
+  Sorted (fun x y => fst (meth_bounds meth) <= to_us y - to_us x <= snd (meth_bounds meth)) l.
+Proof. exact ticks_row. Qed.
+Print Assumptions C16_ticks_row.
 
 (* historical (A.7): before the repair 867ccf8 day ticks crossing a 31st raised,
    because the day step did; the witness of the step is kept in History/TimeOld.v *)
